@@ -79,3 +79,18 @@ pub fn trace(tag: &'static str, vals: &[Float]) {
         }
     });
 }
+
+// ---------------------------------------------------------------------------------------------------------------
+// Continuous output: the crate-private constructors, so that the segment lookup can be fed arbitrary segment lists.
+
+use crate::solve::{cont::ContinuousOutput, options::Method};
+
+/// `ContinuousOutput::from_segments` (per-step tuples of (cont, xold, h)).
+pub fn continuous_from_segments(method: Method, n_states: usize, segs: Vec<(Vec<Float>, Float, Float)>) -> ContinuousOutput {
+    ContinuousOutput::from_segments(method, n_states, segs)
+}
+
+/// `ContinuousOutput::constant` (the zero-interval / empty-state shortcut of `solve_ivp`).
+pub fn continuous_constant(method: Method, x0: Float, y0: &[Float]) -> ContinuousOutput {
+    ContinuousOutput::constant(method, x0, y0)
+}
